@@ -91,8 +91,9 @@ fn gen_schema_text(rng: &mut Rng, valid: bool, wild: u32) -> (String, Vec<(Strin
     // an importable schema
     let mut others = Vec::new();
     let mut importable: Vec<(String, Vec<String>)> = Vec::new();
+    let mut reuse: Vec<String> = Vec::new();
     if rng.chance(1, 2) {
-        let mut g = SchemaGen::new(rng, GenCfg { valid: true, hostile_docs: false, max_defs: 3, comments: false, attrs: false, plain_types_only: false });
+        let mut g = SchemaGen::new(rng, GenCfg { valid: true, hostile_docs: true, max_defs: 4, comments: false, attrs: false, plain_types_only: false });
         let other = g.schema("other_schema", &[]);
         let types: Vec<String> = other
             .defs
@@ -104,8 +105,14 @@ fn gen_schema_text(rng: &mut Rng, valid: bool, wild: u32) -> (String, Vec<(Strin
         let text = Layout { r: rng, wild: 0 }.render(&other);
         importable.push(("other_schema".to_string(), types));
         others.push(("other_schema".to_string(), Ok(text)));
+        for d in &other.defs {
+            if let crate::schema::gen::ADef::Service(sv) = d {
+                reuse.push(sv.uuid.clone());
+            }
+        }
     }
     let mut g = SchemaGen::new(rng, cfg);
+    g.reuse_uuids = reuse;
     let s = g.schema("main_schema", &importable);
     drop(g);
     let text = Layout { r: rng, wild }.render(&s);
